@@ -39,7 +39,8 @@ def run(eng, rep) -> None:
     rep.rule("R04.4", "struct fields are laid out in ascending field_id")
     rep.rule("R04.5", "options of a leaf are looked up under exactly the emitted field's name; the lookup is an exact-name match; the shared default is never mutated")
     rep.rule("R04.6", "attribute stores on non-self objects target only copies")
-    rep.assume("uniqueness of hierarchical names and propagation of an array field's options to its unrolled elements are not decided")
+    rep.rule("R04.7", "hierarchical names: the name prefix received by a layout step is handed on (extended or unchanged) to every layout step it calls, and the leaf name starts with it")
+    rep.assume("propagation of an array field's options to its unrolled elements is not decided; uniqueness of names is decided only as prefix threading (R04.7), given unique field names per struct (C09)")
     enc = prog.cls(ENCODER)
     gen = enc.methods.get("generate")
     if gen is None:
@@ -219,6 +220,7 @@ def run(eng, rep) -> None:
                 n_mut += 1
                 rep.violation("R04.5", f.file, f.qual, norm(st, 60), "a leaf's options dict is mutated: with the shared default `extended_data=dict()` (and the signal block's own dict) this leaks options to other leaves")
     rep.ok("R04.5", "src/fcp/encoding.py", VALUE, "stores to *.extended_data anywhere: %d" % n_mut, "options dicts are read-only")
+    r047(eng, rep, enc, reach, live, arg_of)
     # ---- R04.6 ----------------------------------------------------------------------
     for f in reach:
         defs = Defs(f.node)
@@ -231,6 +233,58 @@ def run(eng, rep) -> None:
                 is_copy = bool(vals) and all(isinstance(v, ast.Call) and (dotted(v.func) or "").split(".")[-1] in ("copy", "deepcopy", "replace") for k, v, s_ in vals if k == "assign")
                 fresh = bool(vals) and all(isinstance(v, (ast.List, ast.Dict, ast.ListComp)) or (isinstance(v, ast.Call) and isinstance(eng.T.fn(f).of(v), tuple) and eng.T.fn(f).of(v)[0] == "inst") for k, v, s_ in vals if k == "assign")
                 rep.check(is_copy or fresh, "R04.6", f.file, f.qual, norm(st, 60), "writes a copy / a fresh local", "layout mutates a schema object (%s): the caller's schema changes as a side effect" % root.id)
+
+
+def r047(eng, rep, enc, reach, live, arg_of) -> None:
+    """Prefix threading. The prefix parameter is found by role: the parameter of the leaf emitter whose value
+    is concatenated into the leaf's name; in every layout method the parameter of that name plays the role."""
+    prog, cg = eng.prog, eng.cg
+    pnames = set()
+    for f, n, v in live:
+        nm = arg_of(v, "name")
+        if nm is None:
+            continue
+        ps = {p.arg for p in f.params}
+        atoms = Provenance(f.node).of(nm)
+        cand = [a.split("[")[0].split(".")[0] for a in atoms if not a.startswith(("const:", "call:")) and a.split("[")[0].split(".")[0] in ps - {"self"}]
+        strs = [p.arg for p in f.params if p.arg in cand and (p.annotation is None or norm(p.annotation) == "str")]
+        for c in strs:
+            pnames.add(c)
+            rep.ok("R04.7", f.file, f.qual, "leaf name <- %s" % norm(nm, 50), "leaf name is built from the received prefix '%s'" % c)
+        if not strs:
+            rep.violation("R04.7", f.file, f.qual, "leaf name <- %s" % norm(nm, 50), "the leaf's name does not include the prefix received from the enclosing struct: leaves of two nested structs of the same type get the same name")
+    if not pnames:
+        return
+    n_sites = 0
+    for f in reach:
+        mine = [p.arg for p in f.params if p.arg in pnames]
+        if not mine:
+            continue
+        pv = Provenance(f.node)
+        for cs in cg.sites_in(f):
+            for c in cs.callees:
+                g = prog.functions.get(c)
+                if g is None or g.cls is not enc or g not in reach:
+                    continue
+                theirs = [p.arg for p in g.params if p.arg in pnames]
+                if not theirs:
+                    continue
+                q = theirs[0]
+                gps = [p.arg for p in g.params][1:]
+                a = None
+                for k in cs.node.keywords:
+                    if k.arg == q:
+                        a = k.value
+                if a is None and q in gps and gps.index(q) < len(cs.node.args):
+                    a = cs.node.args[gps.index(q)]
+                n_sites += 1
+                if a is None:
+                    rep.violation("R04.7", f.file, f.qual, norm(cs.node, 70), "layout step called without the name prefix (default ''): leaves below this point lose their hierarchical name, so e.g. the elements of an array inside two sub-structs of the same type collide")
+                elif any(x.split("[")[0].split(".")[0] == mine[0] for x in pv.of(a)):
+                    rep.ok("R04.7", f.file, f.qual, norm(cs.node, 70), "prefix handed on: %s" % norm(a, 40))
+                else:
+                    rep.violation("R04.7", f.file, f.qual, norm(cs.node, 70), "the prefix handed on (%s) does not contain the received prefix '%s'" % (norm(a, 40), mine[0]))
+    rep.floor("R04.7", "layout-to-layout call sites carrying a prefix", n_sites, 1)
 
 
 def r043(eng, rep, tlf: FuncInfo) -> None:
